@@ -5,6 +5,7 @@ Every interleaving of the element handlers at their real suspension points is pr
 from __future__ import annotations
 
 import asyncio
+import contextvars
 import gc
 import itertools
 import json
@@ -54,6 +55,8 @@ PROFILES = [
 ]
 
 CUR = {'sched': None, 'exec': [], 'points': {}}
+# what the outermost middleware stores for "its" element (the tracing-scope pattern): every element runs in a context of its own
+ELEMENT = contextvars.ContextVar('vmon_c10_element', default='unset')
 
 
 def rpc_code(i):
@@ -71,6 +74,7 @@ def build(shape, concurrent, plain_mw=False):
         s.mark('start', e)
 
         async def rest():
+            ELEMENT.set(e)      # (inside the awaitable: the synchronous part runs in the caller's context, before any task exists)
             if 'mw-pre' in points[e]:
                 await s.point(e, 'mw-pre')
             resp = await handler(request, context)
@@ -84,6 +88,7 @@ def build(shape, concurrent, plain_mw=False):
         e = request.params[0]
         s = CUR['sched']
         s.mark('start', e)
+        ELEMENT.set(e)
         if 'mw-pre' in points[e]:
             await s.point(e, 'mw-pre')
         resp = await handler(request, context)
@@ -113,7 +118,7 @@ def build(shape, concurrent, plain_mw=False):
 
     def outcome(tok, what):
         if what == 'ok':
-            return ['res', tok]
+            return ['res', tok, ELEMENT.get()]          # read AFTER the method's suspension points
         if what == 'rpc':
             raise JsonRpcError(code=rpc_code(tok), message=f'e{tok}', data=tok)
         # (a TypeError from inside the body is an ordinary failure of the method, not of the call)
@@ -128,7 +133,7 @@ def build(shape, concurrent, plain_mw=False):
             CUR['exec'].append(tok)
             if 'm0' in points[tok]:
                 await CUR['sched'].point(tok, 'm0')
-            return ['res', self.tok]
+            return ['res', self.tok, ELEMENT.get()]
 
     if any(PROFILES[p][0] == 'view' for p in shape):
         disp.view(View)
@@ -160,7 +165,7 @@ def build(shape, concurrent, plain_mw=False):
             rid = [0, 'id1', -3, 4, '', 6][i]
             r['id'] = rid
             if what == 'ok':
-                want.append({'jsonrpc': '2.0', 'id': rid, 'result': ['res', i]})
+                want.append({'jsonrpc': '2.0', 'id': rid, 'result': ['res', i, i]})
             elif what == 'rpc':
                 want.append({'jsonrpc': '2.0', 'id': rid, 'error': {'code': rpc_code(i), 'message': f'e{i}', 'data': [i, f'h{rpc_code(i)}']}})
             else:
